@@ -61,7 +61,7 @@ shows the newest-wins table over exactly the tiling's records.  Opening it again
 computation on the same bytes: any number of opens without a write yield the same contents. -/
 theorem open_of_clean_device_is_pure (img : Image) (size : Nat) (o : Opts) (info : Gen → RecMeta) (d : Disk) (L : List Rec)
     (md : Meta) (js : JournalState)
-    (hro : o.readOnly = false) (httl : o.ttlOn = false)
+    (hro : o.readOnly = false)
     (hsize : validDeviceSize size = true) (himg : img.size * BSZ = size) (hnz : imageAllZero img = false)
     (hsig : slice (selectMeta (blockAt img FEOX_METADATA_BLOCK) (blockAt img FEOX_METADATA_BACKUP_BLOCK)) 0 FEOX_SIGNATURE_SIZE = FEOX_SIGNATURE)
     (hmd : Meta.decode (selectMeta (blockAt img FEOX_METADATA_BLOCK) (blockAt img FEOX_METADATA_BACKUP_BLOCK)) = some md)
@@ -69,11 +69,13 @@ theorem open_of_clean_device_is_pure (img : Image) (size : Nat) (o : Opts) (info
     (hclear : js.extents = [])
     (hrep : Rep img md.version FEOX_DATA_START_BLOCK (size / BSZ) info d) (ht : TiledBy d (size / BSZ) L FEOX_DATA_START_BLOCK)
     (hmarks : MarksClean img FEOX_DATA_START_BLOCK (size / BSZ) d)
-    (hnd : (L.map (fun r => (info r.2.1).key)).Nodup) :
+    (hnd : (L.map (fun r => (info r.2.1).key)).Nodup)
+    (hexp : o.ttlOn = true → ∀ l ∈ L.foldl (fun lv r => absorbLive lv (liveOf info r)) [],
+      (decide (l.expiry > 0) && decide (o.now > l.expiry)) = false) :
     ∃ r, (recoverImage img size o).result = .ok r ∧ (recoverImage img size o).io = [] ∧ r.image = img ∧
       r.version = md.version ∧ r.live = L.foldl (fun lv r => absorbLive lv (liveOf info r)) [] ∧
       recoverImage r.image size o = recoverImage img size o := by
-  obtain ⟨r, h1, h2, h3, h4, h5⟩ := recover_clean_image img size o info d L md js hro httl hsize himg hnz hsig hmd hjs hclear hrep ht hmarks hnd
+  obtain ⟨r, h1, h2, h3, h4, h5⟩ := recover_clean_image img size o info d L md js hro hsize himg hnz hsig hmd hjs hclear hrep ht hmarks hnd hexp
   exact ⟨r, h1, h2, h3, h4, h5, by rw [h3]⟩
 
 end Feox.C04
